@@ -67,8 +67,11 @@ Renderings(G, V, SP, EP) ==
                            : p \in EP}
       \* an unknown section is ignored as a whole - also its lines that look like comments
       noise == {<<>>} \cup (IF V.noise THEN {<<TBlank, TSection("unknown"), TJunk>>, <<TBlank, TSection("unknown"), TNote(3), TJunk>>} ELSE {})
-  IN  {[eol |-> eol, bom |-> bom, plus |-> G.plus, radix |-> rx, nl |-> nl, star |-> st, toks |-> head \o n \o sb \o eb] :
-         eol \in V.eols, bom \in V.boms, rx \in V.radix, nl \in V.nls, st \in V.stars, n \in noise, sb \in styleBlocks, eb \in eventBlocks}
+      \* the sections may come in either order: an event refers to its style by name, wherever the style is defined
+  IN  {[eol |-> eol, bom |-> bom, plus |-> G.plus, radix |-> rx, nl |-> nl, star |-> st,
+        toks |-> head \o n \o (IF first = "styles" THEN sb \o eb ELSE eb \o sb)] :
+         eol \in V.eols, bom \in V.boms, rx \in V.radix, nl \in V.nls, st \in V.stars, n \in noise, sb \in styleBlocks, eb \in eventBlocks,
+         first \in V.first}
 
 ---------------------------------------------------------------------------
 (* Implementation layer: the control state of ssa.go:ReadFromSSAWithOptions, one step per physical line: the
